@@ -46,13 +46,13 @@ def session_at_rest(f: Ref['mqtt.client.factory.MQTTFactory'], a: Obj) -> bool:
     SUBSCRIBE/UNSUBSCRIBE, inner containers that are objects of their own"""
     return (implies(contains(f.windowPublish, a),
                     isa(f.windowPublish[a], 'dict')
-                    and forall(lambda k: implies(contains(f.windowPublish[a], k), idle_pub(f.windowPublish[a][k]) and f.windowPublish[a][k].msgId == k)))
+                    and forall(lambda k: implies(contains(f.windowPublish[a], k), idle_pub(f.windowPublish[a][k]) and f.windowPublish[a][k].msgId == k and f.windowPublish[a][k].g_addr == a)))
             and implies(contains(f.windowPubRelease, a),
                         isa(f.windowPubRelease[a], 'dict')
-                        and forall(lambda k: implies(contains(f.windowPubRelease[a], k), idle_rel(f.windowPubRelease[a][k]) and f.windowPubRelease[a][k].msgId == k)))
+                        and forall(lambda k: implies(contains(f.windowPubRelease[a], k), idle_rel(f.windowPubRelease[a][k]) and f.windowPubRelease[a][k].msgId == k and f.windowPubRelease[a][k].g_addr == a)))
             and implies(contains(f.windowPubRx, a),
                         isa(f.windowPubRx[a], 'dict')
-                        and forall(lambda k: implies(contains(f.windowPubRx[a], k), rx_ok(f.windowPubRx[a][k]) and f.windowPubRx[a][k].msgId == k)))
+                        and forall(lambda k: implies(contains(f.windowPubRx[a], k), rx_ok(f.windowPubRx[a][k]) and f.windowPubRx[a][k].msgId == k and f.windowPubRx[a][k].g_addr == a)))
             and implies(contains(f.windowSubscribe, a),
                         isa(f.windowSubscribe[a], 'dict') and forall(lambda k: not contains(f.windowSubscribe[a], k)))
             and implies(contains(f.windowUnsubscribe, a),
@@ -60,7 +60,7 @@ def session_at_rest(f: Ref['mqtt.client.factory.MQTTFactory'], a: Obj) -> bool:
             and implies(contains(f.queuePublishTx, a),
                         isa(f.queuePublishTx[a], 'deque') and dq_head(f.queuePublishTx[a]) <= dq_tail(f.queuePublishTx[a])
                         and forall(lambda j: implies(dq_head(f.queuePublishTx[a]) <= j and j < dq_tail(f.queuePublishTx[a]),
-                                                     queued_ok(dq_at(f.queuePublishTx[a], j)) and dq_at(f.queuePublishTx[a], j).q_pos == j))))
+                                                     queued_ok(dq_at(f.queuePublishTx[a], j)) and dq_at(f.queuePublishTx[a], j).q_pos == j and dq_at(f.queuePublishTx[a], j).g_addr == a))))
 
 
 @spec
